@@ -84,6 +84,8 @@ def measure_laplace_scale(cls, params, value=0.0, us=UNIT_U):
     m = cls(**params, random_state=seams.ScriptedSystemRandom(us))
     out = float(quiet(m.randomise, value))
     noise = out - value
+    if L0 == 0:
+        return float("nan"), 1.0, out
     scale = -noise / L0
     prec = 4 * abs(math.ulp(max(abs(out), abs(value)))) / abs(noise) if noise != 0 else 0.0
     return scale, prec, out
